@@ -1,10 +1,15 @@
 #!/bin/sh
-# run every claimed check (quick by default) sequentially; print id, exit code, wall time
+# run every claimed check (quick by default) sequentially; print id, exit code, wall time.
+# Works from whatever checkout it lives in (so `vp run` snapshots work).  With VERIF_BASELINE_COPY=<path>
+# the checkout's baseline file is copied there after every check (to carry per-tier baselines out of
+# a snapshot run); merge with tools/merge_baseline.py.
 TIER=${1:-quick}
-cd /verif
-for id in $(.venv/bin/python -c "import json;print(' '.join(c['property_id'] for c in json.load(open('MANIFEST.json'))['checks']))"); do
+HERE=$(cd "$(dirname "$0")/.." && pwd); cd "$HERE"
+sh tools/setup_venv.sh >/dev/null 2>&1
+for id in ${VERIF_IDS:-$(.venv/bin/python -c "import json;print(' '.join(c['property_id'] for c in json.load(open('MANIFEST.json'))['checks']))")}; do
   s=$(date +%s)
-  ./check $id --tier $TIER > /tmp/runall_$id.log 2>&1; rc=$?
+  ./check $id --tier $TIER > /tmp/runall_${TIER}_$id.log 2>&1; rc=$?
   e=$(date +%s)
-  echo "$id rc=$rc $((e-s))s $(tail -1 /tmp/runall_$id.log | cut -c1-160)"
+  echo "$id rc=$rc $((e-s))s $(tail -1 /tmp/runall_${TIER}_$id.log | cut -c1-160)"
+  [ -n "$VERIF_BASELINE_COPY" ] && cp baseline/obligations.json "$VERIF_BASELINE_COPY"
 done
